@@ -520,4 +520,52 @@ theorem commandToBytes_eq (ft id : UInt8) (data : Bytes) :
       = commandToBytes ft id data := by
   rw [commandPayload_eq, ok_bind, frameTobytes_eq]; rfl
 
+/-! ### AirConditioner.apply (the part before the first await) -/
+
+/-- the translated prefix of `AirConditioner.apply()` (everything up to the first await: the attribute -> command field
+    mapping) on the attribute values of a device object -/
+def applyCode (d : Dev) : Codec.ApplyCmd :=
+  Codec.applyCommand d.beep d.power d.tempCenti (d.mode : Int) d.fan (d.swing : Int) d.eco d.turbo d.freeze d.sleep
+    d.fahrenheit d.followMe d.purifier (d.humidity.map (fun (n : Nat) => (n : Int))) (d.auxMode : Int)
+
+/-- **tie.** For EVERY device object state, the `SetStateCommand` fields the translated `apply()` assigns are the model's
+    `setStateOfDev` (unknown freeze protection / target humidity replaced by their defaults, aux mode split in two flags). -/
+theorem applyCommand_eq (d : Dev) : applyCode d = Codec.ApplyCmd.ofModel (setStateOfDev d) := by
+  first
+  | (
+     unfold applyCode Codec.applyCommand Codec.ApplyCmd.ofModel setStateOfDev
+     have h1 : ((d.humidity.map (fun (n : Nat) => (n : Int))).getD 40) = ((d.humidity.getD 40 : Nat) : Int) := by
+       cases d.humidity <;> rfl
+     have a1 : decide ((d.auxMode : Int) = 1) = decide (d.auxMode = 1) := by
+       apply decide_eq_decide.mpr; omega
+     have a2 : decide ((d.auxMode : Int) = 2) = decide (d.auxMode = 2) := by
+       apply decide_eq_decide.mpr; omega
+     simp only [h1, a1, a2]
+     done)
+  | (
+     unfold applyCode Codec.applyCommand
+     simp only [Int.toNat_natCast, Option.map_map]
+     have : (Option.map (Int.toNat ∘ fun (n : Nat) => (n : Int)) d.humidity) = d.humidity := by
+       cases d.humidity <;> simp
+     rw [this]
+     cases d; rfl)
+
+/-- `apply()` as translated followed by `SetStateCommand.tobytes` as translated (`force_aux_heat` keeps the constructor's
+    default `False`: `apply()` never assigns it) -/
+def applyThenTobytes (d : Dev) : R Bytes :=
+  Codec.setStateBody (applyCode d).beep_on (applyCode d).power_on (applyCode d).target_temperature (applyCode d).operational_mode
+    (applyCode d).fan_speed (applyCode d).eco (applyCode d).swing_mode (applyCode d).turbo (applyCode d).fahrenheit (applyCode d).sleep
+    (applyCode d).freeze_protection (applyCode d).follow_me (applyCode d).purifier (applyCode d).target_humidity (applyCode d).aux_heat
+    false (applyCode d).independent_aux_heat
+
+/-- **tie.** attribute mapping of `apply()` composed with `SetStateCommand.tobytes`, both as translated, = the model's
+    body for the model's command record - for every device object state. -/
+theorem applyThenTobytes_eq (d : Dev) : applyThenTobytes d = setStateBody (setStateOfDev d) := by
+  unfold applyThenTobytes
+  rw [applyCommand_eq]
+  have := setStateBody_eq (setStateOfDev d)
+  unfold setStateCode at this
+  simpa [Codec.ApplyCmd.ofModel, setStateOfDev] using this
+
+
 end Msmart.CodecEq
